@@ -53,62 +53,128 @@ def run(ctx):
     codecrepr.loaders(ctx)
     av = P.fn("carquet_page_writer_add_values", PW)
     dp = P.fn("carquet_decode_plain", PL)
-    wsw = [s for s in find_switches(av) if "type" in src(s.c[-2])]
-    rsw = [s for s in find_switches(dp) if "type" in src(s.c[-2])]
-    if len(wsw) != 1 or len(rsw) != 1:
-        raise AnalysisBroken("type switches of the PLAIN codec tables not found")
-    wt, _ = switch_table(wsw[0])
-    rt, _ = switch_table(rsw[0])
-    for ty, stem in TYPES.items():
-        wcalls = [c.callee for s in wt.get(ty, []) for c in s.walk() if c.k == "CallExpr" and (c.callee or "").startswith("carquet_encode_")]
-        rcalls = [c.callee for s in rt.get(ty, []) for c in s.walk() if c.k == "CallExpr" and (c.callee or "").startswith("carquet_decode_")]
-        if ty == "CARQUET_PHYSICAL_INT96":
-            # INT96 is readable but not writable through the page writer
-            ctx.ob("R5.agree", "codec-table|%s|%s" % (PL, ty), P.where(rsw[0]),
-                   "INT96 pages are decoded by carquet_decode_plain_int96", rcalls == ["carquet_decode_plain_int96"])
-            continue
-        ctx.ob("R5.agree", "codec-table|%s/%s|%s" % (PW, PL, ty), P.where(wsw[0]),
-               "%s is written by carquet_encode_plain_%s and read by carquet_decode_plain_%s" % (ty, stem, stem),
-               wcalls == ["carquet_encode_plain_" + stem] and rcalls == ["carquet_decode_plain_" + stem],
-               "writer %s / reader %s" % (wcalls, rcalls))
-    for tab, nm, fn in ((wt, "writer", av), (rt, "reader", dp)):
-        d = tab.get("default")
-        ok = d is not None and any((r.k == "ReturnStmt" and r.c and r.c[0] is not None and r.c[0].cv not in (0, None)) or
-                                   (is_assign(r) and r.c[1].cv not in (0, None)) for s in d for r in s.walk())
-        ctx.ob("R5.agree", "codec-default|%s" % nm, P.where(fn.body), "unknown physical types are refused by the %s" % nm, ok)
+    # both dispatchers are executed once per physical type value (and for values outside the enum) with
+    # every carquet_encode_plain_* / carquet_decode_plain_* hooked: the codec reached per type is the
+    # table; switch, if-chain or an extracted helper make no difference
+    from ..rules import sem
+    pt = P.enum("carquet_physical_type")
+    enc_names = sorted(f for f in P.by_name if f.startswith("carquet_encode_plain_"))
+    dec_names = sorted(f for f in P.by_name if f.startswith("carquet_decode_plain_"))
+    wo1 = sem.field_offsets(P, "carquet_page_writer")
+
+    def wtable(tv):
+        hooks = {n_: (lambda ev, a, it, n_=n_: ev.append(n_) or 0) for n_ in enc_names}
+        heap0 = {("pw", wo1["type"]): tv, ("pw", wo1["max_def_level"]): 0, ("pw", wo1["max_rep_level"]): 0,
+                 ("pw", wo1["type_length"]): 4, ("pw", wo1["num_values"]): 0, ("pw", wo1["num_nulls"]): 0,
+                 ("pw", wo1["has_min_max"]): 0, ("pw", wo1["write_statistics"]): 0}
+        return sem.run(P, av, [sem.Ptr("pw", 0, 1), sem.Ptr("vals", 0, 1), 0, 0, 0], heap0=heap0, hooks=hooks,
+                       single=True, max_forks=64)
+
+    def rtable(tv):
+        hooks = {n_: (lambda ev, a, it, n_=n_: ev.append(n_) or 0) for n_ in dec_names}
+        return sem.run(P, dp, [sem.Ptr("in", 0, 1), 64, tv, 4, sem.Ptr("out", 0, 1), 0], hooks=hooks,
+                       single=True, max_forks=64)
+    try:
+        for ty, stem in TYPES.items():
+            if ty not in pt:
+                raise AnalysisBroken("physical type %s vanished" % ty)
+            rret, rev, _h = rtable(pt[ty])
+            if ty == "CARQUET_PHYSICAL_INT96":
+                # INT96 is readable but not writable through the page writer
+                ctx.ob("R5.agree", "codec-table|%s|%s" % (PL, ty), P.where(dp.body),
+                       "INT96 pages are decoded by carquet_decode_plain_int96", rev == ["carquet_decode_plain_int96"], str(rev))
+                continue
+            wret, wev, _h = wtable(pt[ty])
+            ctx.ob("R5.agree", "codec-table|%s/%s|%s" % (PW, PL, ty), P.where(av.body),
+                   "%s is written by carquet_encode_plain_%s and read by carquet_decode_plain_%s (abstract execution of both dispatchers)"
+                   % (ty, stem, stem),
+                   wev == ["carquet_encode_plain_" + stem] and rev == ["carquet_decode_plain_" + stem] and wret == 0,
+                   "writer %s (returns %s) / reader %s" % (wev, wret, rev))
+        unknown = [v for v in (-1, max(pt.values()) + 1, 99) if v not in pt.values()]
+        for nm, tab, fn in (("writer", wtable, av), ("reader", rtable, dp)):
+            bad = None
+            for v in unknown:
+                ret, ev, _h = tab(v)
+                refused = isinstance(ret, int) and ret != 0 and not ev
+                if not refused and bad is None:
+                    bad = "type value %d: codecs %s, returns %s" % (v, ev, ret)
+            ctx.ob("R5.agree", "codec-default|%s" % nm, P.where(fn.body),
+                   "unknown physical types are refused by the %s (no codec runs, a non-zero status / negative count is returned)" % nm,
+                   bad is None, bad or "")
+    except sem.Inconclusive as ex:
+        ctx.inconclusive("R5.agree", "codec-table|%s/%s" % (PW, PL), P.where(av.body),
+                         "abstract execution of the PLAIN dispatchers", str(ex))
 
     # ---- (2)
     cf = P.fn("carquet_column_writer_finalize", CW)
-    oks = [r for r in cf.returns() if r.c and r.c[0] is not None and r.c[0].cv == 0]
-    w = find_path_avoiding(cf.cfg, lambda e: e.k == "CallExpr" and e.callee == "flush_current_page",
-                           lambda e: e in oks)
-    ctx.ob("R6.must-pass", "finalize-flushes|%s:carquet_column_writer_finalize" % CW, P.where(cf.body),
-           "every success path of column finalize flushes the current page", w is None and bool(oks))
-    fp = P.fn("flush_current_page", CW)
-    seq = []
-    for name in ("carquet_page_writer_finalize", "carquet_buffer_append", "carquet_page_writer_reset"):
-        cs = fp.calls(name)
-        if len(cs) != 1:
-            raise AnalysisBroken("flush_current_page: expected one call of " + name)
-        seq.append(cs[0])
-    ctx.ob("R6.order", "flush-order|%s:flush_current_page" % CW, P.where(fp.body),
-           "a page is finalized, appended to the column buffer, and only then reset",
-           fp.cfg.node_dominates(seq[0], seq[1]) and fp.cfg.node_dominates(seq[1], seq[2]))
-    # the appended bytes are the finalized page
-    a = seq[1].args()
-    f_ = seq[0].args()
-    okb = src(f_[1].strip_casts().c[0] if f_[1].strip_casts().k == "UnaryOperator" else f_[1]) == src(a[1]) and \
-        src(f_[2].strip_casts().c[0] if f_[2].strip_casts().k == "UnaryOperator" else f_[2]) == src(a[2])
-    ctx.ob("R6.order", "flush-bytes|%s:flush_current_page" % CW, P.where(seq[1]),
-           "the bytes appended are exactly (page_data, page_size) returned by the page writer", okb)
-    # only the empty page is skipped
-    early = [r for r in fp.returns() if r.c and r.c[0].cv == 0 and not fp.cfg.node_dominates(seq[0], r)]
-    oke = True
-    for r in early:
-        conds = [src([x for x in an.c if x is not None][0]) for an in r.ancestors() if an.k == "IfStmt"]
-        oke = oke and any("num_values" in c and "== 0" in c for c in conds)
-    ctx.ob("R6.must-pass", "flush-skip-empty|%s:flush_current_page" % CW, P.where(fp.body),
-           "a page is skipped only when it holds no values", oke)
+    # column finalize is executed abstractly (empty / non-empty current page x failure of the page
+    # finaliser or of the append; the page writer and the buffer are hooked): a non-empty page is
+    # finalized, exactly its bytes are appended to the column buffer, then the page writer is reset; an
+    # empty page is skipped; a failure stops before the reset and is returned
+    from ..rules import sem
+    verd = {"finalize-flushes": None, "flush-order": None, "flush-bytes": None, "flush-skip-empty": None, "flush-fail": None}
+    nsc = 0
+    try:
+        co = sem.field_offsets(P, "carquet_column_writer_internal")
+        bo = sem.field_offsets(P, "carquet_buffer")
+        for nvals in (0, 5):
+            for fail in (None, "finalize", "append"):
+                if nvals == 0 and fail:
+                    continue
+                nsc += 1
+                heap0 = {("cw", co["page_writer"]): sem.Ptr("pw", 0, 1), ("cw", co["column_buffer"] + bo["size"]): 500,
+                         ("cw", co["column_buffer"] + bo["data"]): sem.Ptr("colbuf", 0, 1),
+                         ("cw", co["total_values"]): 40, ("cw", co["total_uncompressed_size"]): 1000,
+                         ("cw", co["total_compressed_size"]): 600, ("cw", co["num_pages"]): 2}
+
+                def pfin(ev, a, it, fail=fail):
+                    ev.append(("finalize", getattr(a[0], "base", a[0])))
+                    sem.set_out(it, a[1], sem.Ptr("pagebytes", 0, 1))
+                    sem.set_out(it, a[2], 77)
+                    if len(a) > 3:
+                        sem.set_out(it, a[3], 100)
+                    if len(a) > 4:
+                        sem.set_out(it, a[4], 70)
+                    return 5 if fail == "finalize" else 0
+
+                def app(ev, a, it, fail=fail):
+                    ev.append(("append", (a[0].base, a[0].off) if isinstance(a[0], sem.Ptr) else a[0], getattr(a[1], "base", a[1]), a[2]))
+                    return 6 if fail == "append" else 0
+                args = [sem.Ptr("cw", 0, 1)] + [sem.Ptr("o%d" % i, 0, 8) for i in range(5)]
+                ret, ev, heap = sem.run(P, cf, args, heap0=heap0, single=True, max_forks=64, hooks={
+                    "carquet_page_writer_num_values": lambda ev, a, it, nvals=nvals: nvals,
+                    "carquet_page_writer_finalize": pfin, "carquet_buffer_append": app,
+                    "carquet_page_writer_reset": lambda ev, a, it: ev.append(("reset", getattr(a[0], "base", a[0])))})
+                sc = "%d buffered value(s)%s" % (nvals, ", %s fails" % fail if fail else "")
+                colbuf = ("cw", co["column_buffer"])
+                if nvals == 0:
+                    if [e for e in ev if e[0] in ("finalize", "append")] or ret != 0:
+                        verd["flush-skip-empty"] = verd["flush-skip-empty"] or "%s: %s, returns %s" % (sc, ev, ret)
+                    continue
+                if fail is None:
+                    if not ev or ev[0] != ("finalize", "pw"):
+                        verd["finalize-flushes"] = verd["finalize-flushes"] or "%s: %s" % (sc, ev)
+                    elif [e[0] for e in ev] != ["finalize", "append", "reset"] or ret != 0:
+                        verd["flush-order"] = verd["flush-order"] or "%s: %s, returns %s" % (sc, ev, ret)
+                    elif ev[1] != ("append", colbuf, "pagebytes", 77):
+                        verd["flush-bytes"] = verd["flush-bytes"] or "%s: %s" % (sc, ev[1])
+                else:
+                    want = ["finalize"] if fail == "finalize" else ["finalize", "append"]
+                    if [e[0] for e in ev] != want or ret != (5 if fail == "finalize" else 6):
+                        verd["flush-fail"] = verd["flush-fail"] or "%s: %s, returns %s" % (sc, ev, ret)
+        what = {"finalize-flushes": "column finalize flushes a non-empty current page before reporting the chunk",
+                "flush-order": "a page is finalized, appended to the column buffer, and only then reset",
+                "flush-bytes": "the bytes appended are exactly (page_data, page_size) returned by the page writer",
+                "flush-skip-empty": "a page is skipped only when it holds no values",
+                "flush-fail": "a failing page finaliser / append is returned and the page writer is not reset"}
+        for k_, msg in verd.items():
+            ctx.ob("R6.order" if k_ in ("flush-order", "flush-bytes") else "R6.must-pass",
+                   "%s|%s:carquet_column_writer_finalize" % (k_, CW), P.where(cf.body),
+                   what[k_] + " (%d scenarios, abstract execution)" % nsc, msg is None, msg or "")
+    except (sem.Inconclusive, KeyError) as ex:
+        ctx.inconclusive("R6.must-pass", "finalize-trace|%s:carquet_column_writer_finalize" % CW, P.where(cf.body),
+                         "abstract execution of column finalize", "%s: %s" % (type(ex).__name__, ex))
+    ctx.floor("C01 column finalize scenarios", nsc, 4)
     rg = P.fn("carquet_row_group_writer_finalize", RW)
     # abstract execution for 0..3 columns (the column finalizer and the buffer append are hooked): every
     # column is finalized and its bytes appended, in column order; a failing column stops with its error
